@@ -360,8 +360,13 @@ func (m *Machine) runPath(fn *ssa.Function, prefix []int64) (end pathEnd) {
 	m.model, m.modelValid, m.auxVars = nil, false, nil
 	m.fs = nil
 	m.mapOrder = nil
+	m.fsLinks = nil
 	defer func() {
 		r := recover()
+		m.killThreads()
+		if tf, ok := r.(threadForward); ok {
+			r = tf.r
+		}
 		switch r := r.(type) {
 		case nil:
 		case pathEnd:
